@@ -420,6 +420,9 @@ Definition call_for (a : action) (sig n : string) : call :=
 Definition rs_lines (a : action) (rs : list presult) : list string :=
   map (fun r => spec_line a (make_namespec (r_group r) (r_name r)) (r_status r) (r_desc r)) rs.
 
+Lemma call_for_spec a sig n : call_for a sig n = spec_call a sig n.
+Proof. unfold call_for, spec_call. destruct (is_group_target a n); destruct a; reflexivity. Qed.
+
 Lemma results_loop_lines a sig ign rs : forall s,
   exists s', results_loop (cfg_of a sig) ign rs s = Ok tt s' /\
              out s' = (rev (map LText (rs_lines a rs)) ++ out s)%list /\
@@ -1018,4 +1021,32 @@ Example auth_example :
                    (init [up_ok; RVal VUnit; RProto 401 "h" "Unauthorized"; RVal VUnit]) in
   ex s = 1 /\ rev (out s) = [LText "a: signalled"; LText "Server requires authentication"] /\
   rev (calls s) = [("getVersion", []); ("signalProcess", [AS "a"; AS "HUP"]); ("signalProcess", [AS "b"; AS "HUP"])].
+Proof. vm_compute. auto. Qed.
+
+(* ----------------------------------------- no usable server, for every action *)
+(* Every action that starts with the version check (start stop restart signal clear status
+   pid tail maintail version fg): when the server is unreachable (connection refused, socket
+   file missing), speaks another API version or does not know the namespace, a message is
+   printed, the status is non-zero and nothing else is sent. *)
+Theorem unreachable_nonzero url k first o :
+  no_server first = true ->
+  let s := guarded (with_upcheck url k) (init (first :: o)) in
+  ex s <> 0 /\ (exists t, out s = [LText t]) /\ calls s = [("getVersion", [])].
+Proof.
+  intro H. cbv zeta. unfold guarded, with_upcheck, upcheck, rpc. cbn [orc init tl].
+  destruct first as [v|c fs|n cls t|c u m]; cbn [no_server] in H; try discriminate.
+  - destruct v; try discriminate. destruct (s =s API_VERSION); try discriminate.
+    cbn. repeat split; eauto. vm_compute; discriminate.
+  - rewrite H. cbn. repeat split; eauto. vm_compute; discriminate.
+  - destruct (n =? ECONNREFUSED).
+    + cbn. repeat split; eauto. vm_compute; discriminate.
+    + cbn in H. rewrite H. cbn. repeat split; eauto. vm_compute; discriminate.
+Qed.
+
+(* add / remove / pid <name> still end the whole command when the server answers a name
+   with a fault they have no wording for: known finding C20-names-fault-aborts *)
+Example names_fault_aborts :
+  let s := guarded (remove_names ["a"; "b"]) (init [RFault F_SHUTDOWN_STATE "SHUTDOWN_STATE"; RVal VUnit]) in
+  out s = [LErr "xmlrpc.client.Fault" "<Fault 6: 'SHUTDOWN_STATE'>"] /\ ex s = 1 /\
+  calls s = [("removeProcessGroup", [AS "a"])].
 Proof. vm_compute. auto. Qed.
